@@ -892,6 +892,60 @@ def random_circuit(rng):
     comps.append(dict(kind='gnd', id='gnd', nodes=[rng.choice(nodes)]))
     return comps
 
+def check_sweep_consistency(ctx, out, comps, n1, n2, ws, el=None):
+    """a frequency sweep is the list of the single-frequency results: point by point (value, ∞, imaginary part and all),
+    also for the reversed sweep; the empty sweep is the empty array.  Implementation against itself — plus, in
+    `check_circuit`, against the exact values."""
+    from CircuitCalculator.Circuit import impedance as cimp
+    circuit = mk_circuit(comps)
+    f = (lambda w: cimp.open_circuit_impedance(circuit, n1, n2, w)) if el is None else (lambda w: cimp.element_impedance(circuit, el, w))
+    op = 'circuit_impedance' if el is None else 'circuit_element_impedance'
+    pretty = dict(circuit=[f"{c['id']}:{c['kind']}{tuple(c['nodes'])}={c.get('v', '')}" for c in comps], port=[n1, n2], element=el, w=list(ws))
+    case = dict(kind='sweep', comps=comps, n1=n1, n2=n2, ws=list(ws), el=el)
+    out.evaluations += 1
+    def single(w0):
+        try:
+            r = f(np.array([w0], dtype=float))
+            return ('ok', complex(r[0])) if len(r) == 1 else ('err', 'shape')
+        except Exception as e:
+            return ('err', tag(e))
+    singles = [single(w0) for w0 in ws]
+    if any(r[0] == 'err' for r in singles):
+        out.count('sweep:single_point_raises'); return
+    def same(a, b):
+        if not cmath.isfinite(b): return (a.real == b.real or (math.isnan(a.real) and math.isnan(b.real))) and (a.imag == b.imag or not cmath.isfinite(a))
+        return cmath.isfinite(a) and abs(a - b) <= 1e-12 * max(abs(a), abs(b), 1e-300)
+    out.nontrivial(('sweep', len(ws), ws[0] == 0 if ws else None, el is None, any(not cmath.isfinite(r[1]) for r in singles)))
+    for order, wl, want in (('given', list(ws), [r[1] for r in singles]), ('reversed', list(ws)[::-1], [r[1] for r in singles][::-1]), ('empty', [], [])):
+        try:
+            got = [complex(z) for z in f(np.array(wl, dtype=float))]
+        except Exception as e:
+            out.spec_fail(dict(op=op, symptom='sweep_raises', exc=tag(e), sweep=order, lossy_other_frequency=False, ideal_vs_elsewhere=False,
+                               zero_row_node=False, floating_island=False),
+                          f'the {order} sweep {wl} raises {tag(e)} although every single-frequency call succeeds', pretty, impl=dict(error=tag(e)), case=case)
+            return
+        if len(got) != len(want) or not all(same(a, b) for a, b in zip(got, want)):
+            out.spec_fail(dict(op=op, symptom='sweep_differs_from_single_frequency', sweep=order, first_point_special=bool(wl) and (not cmath.isfinite(want[0]) or want[0] == 0),
+                               lossy_other_frequency=False, ideal_vs_elsewhere=False, zero_row_node=False, floating_island=False),
+                          f'the {order} sweep over {wl} gives {got}; the single-frequency calls give {want}', pretty,
+                          impl=dict(sweep=got), spec=dict(single=want), case=case)
+            return
+    out.count('sweep_consistent')
+
+SWEEP_CORPUS = [
+    # first point w = 0 is a special value: integer 0 across an inductor, ∞ behind a series capacitor, 0 across an ideal source
+    ([dict(kind='L', id='L', nodes=['a', '0'], v=1.0), dict(kind='R', id='R', nodes=['a', '0'], v=3.0), dict(kind='gnd', id='gnd', nodes=['0'])], 'a', '0', [0.0, 1.0, 10.0], 'R'),
+    ([dict(kind='L', id='L', nodes=['a', '0'], v=1.0), dict(kind='R', id='R', nodes=['a', '0'], v=3.0), dict(kind='gnd', id='gnd', nodes=['0'])], 'a', '0', [0.0, 1.0, 10.0], None),
+    ([dict(kind='R', id='R', nodes=['a', 'b'], v=50.0), dict(kind='C', id='C', nodes=['b', '0'], v=0.001), dict(kind='R', id='X', nodes=['a', '0'], v=7.0),
+      dict(kind='gnd', id='gnd', nodes=['0'])], 'a', '0', [0.0, 1.0, 10.0], 'X'),
+    ([dict(kind='R', id='R', nodes=['a', 'b'], v=50.0), dict(kind='C', id='C', nodes=['b', '0'], v=0.001), dict(kind='gnd', id='gnd', nodes=['0'])], 'a', '0', [0.0, 1.0, 10.0], None),
+    ([dict(kind='Vdc', id='V', nodes=['a', '0'], v=1.0), dict(kind='L', id='L', nodes=['a', 'b'], v=2.0), dict(kind='R', id='R', nodes=['b', '0'], v=4.0),
+      dict(kind='gnd', id='gnd', nodes=['0'])], 'b', '0', [0.0, 0.5, 2.0], 'R'),
+    ([dict(kind='Vdc', id='V', nodes=['a', '0'], v=1.0), dict(kind='L', id='L', nodes=['a', 'b'], v=2.0), dict(kind='R', id='R', nodes=['b', '0'], v=4.0),
+      dict(kind='gnd', id='gnd', nodes=['0'])], 'a', '0', [0.0, 0.5, 2.0], 'L'),
+    ([dict(kind='C', id='C', nodes=['a', 'm'], v=1.0), dict(kind='R', id='R', nodes=['m', '0'], v=5.0), dict(kind='gnd', id='gnd', nodes=['0'])], 'a', '0', [0.0, 1.0, 4.0], 'C'),
+]
+
 def check_circuit(ctx, out, comps, n1, n2, ws, el=None):
     """Circuit/impedance.py wrappers: model = sweep of the network-level model over the implementation's own
     transform_circuit outputs (correspondence); Spec per frequency = exact port impedance of the network the
@@ -899,6 +953,7 @@ def check_circuit(ctx, out, comps, n1, n2, ws, el=None):
     from CircuitCalculator.Circuit import impedance as cimp
     from CircuitCalculator.Circuit.circuit import transform_circuit
     drv = ctx.driver
+    check_sweep_consistency(ctx, out, comps, n1, n2, ws, el)
     out.evaluations += 1
     circuit = mk_circuit(comps)
     pretty = dict(circuit=[f"{c['id']}:{c['kind']}{tuple(c['nodes'])}={c.get('v', '')}" for c in comps], port=[n1, n2], element=el, w=list(ws))
@@ -1216,7 +1271,7 @@ def run(ctx, out):
     ES[0] = es
     check_closed_forms(ctx, out)
     check_dc_closed_forms(ctx, out)
-    for comps, n1, n2, ws, el in CIRCUIT_CORPUS:
+    for comps, n1, n2, ws, el in CIRCUIT_CORPUS + SWEEP_CORPUS:
         check_circuit(ctx, out, comps, n1, n2, ws, el=el)
     for desc in CORPUS:
         run_network(ctx, out, desc, True, ctx.rng('corpus'), None, True)
@@ -1285,6 +1340,8 @@ def replay(ctx, out, rp):
         check_scaled_equivalent(ctx, out, case['desc'], case['n1'], case['n2'], case.get('exact', True), ES[0], [case['k']])
     elif k == 'equivalent':
         check_equivalent(ctx, out, case['desc'], case['n1'], case['n2'], case.get('exact', True), ctx.rng('replay'))
+    elif k == 'sweep':
+        check_sweep_consistency(ctx, out, case['comps'], case['n1'], case['n2'], case['ws'], el=case.get('el'))
     elif k == 'circuit':
         check_circuit(ctx, out, case['comps'], case['n1'], case['n2'], case['ws'], el=case.get('el'))
     elif k == 'dc_closed_form':
